@@ -332,10 +332,11 @@ func H_C13_handlers_raw() {
 	src := vNondetSched([]byte(stream))
 	var raws [][]byte
 	var maps []Map
+	stopAt := vChoose(len(docs) + 1) // the handler returns false at this call (len(docs): never)
 	mh := func(m Map, raw []byte) bool {
 		maps = append(maps, m)
 		raws = append(raws, raw) // kept by the caller
-		return true
+		return len(maps)-1 != stopAt
 	}
 	eh := func(error, []byte) bool { return false }
 	var err error
@@ -345,7 +346,11 @@ func H_C13_handlers_raw() {
 		err = HandleJsonReaderRaw(src, mh, eh)
 	}
 	vAssert(err == nil, "raw handlers: no error on a well-formed stream")
-	vAssert(len(maps) == len(docs), "raw handlers: the handler is invoked once per document")
+	wantCalls := len(docs)
+	if stopAt < len(docs) {
+		wantCalls = stopAt + 1
+	}
+	vAssert(len(maps) == wantCalls, "raw handlers: the handler is invoked once per document, and no more once it has returned false")
 	cat := ""
 	for i := range raws {
 		vAssert(vContainsStr(string(raws[i]), docs[i]) || !xml, "raw handlers: each raw value still contains its document after the whole stream has been read")
